@@ -693,6 +693,21 @@ func (s *Sys) Do(c Call) (out Outcome) {
 	return out
 }
 
+// takeValue copies a value the database handed out and then overwrites the slice it came in: what a caller does to the
+// bytes it received is its own business and must not change what the database holds or serves (C02: the bytes bound
+// to a (name, version) never change until deleted).
+func takeValue(v []byte) []byte {
+	cp := append([]byte(nil), v...)
+	scribble(v)
+	return cp
+}
+
+func scribble(b []byte) {
+	for i := range b {
+		b[i] = 0xA5
+	}
+}
+
 func (s *Sys) doDB(c Call, name string, val []byte, out *Outcome) error {
 	caller := s.caller(c.Who, c.Rules)
 	switch c.Op {
@@ -705,23 +720,26 @@ func (s *Sys) doDB(c Call, name string, val []byte, out *Outcome) error {
 	case "get":
 		sv, err := s.DB.Get(caller, name)
 		if sv != nil {
-			out.HasVal, out.Val, out.Ver = true, sv.Value, int(sv.Version)
+			out.HasVal, out.Val, out.Ver = true, takeValue(sv.Value), int(sv.Version)
 		}
 		return err
 	case "getver":
 		sv, err := s.DB.GetVersion(caller, name, api.SecretVersion(c.Ver))
 		if sv != nil {
-			out.HasVal, out.Val, out.Ver = true, sv.Value, int(sv.Version)
+			out.HasVal, out.Val, out.Ver = true, takeValue(sv.Value), int(sv.Version)
 		}
 		return err
 	case "getcond":
 		sv, err := s.DB.GetConditional(caller, name, api.SecretVersion(c.Ver))
 		if sv != nil {
-			out.HasVal, out.Val, out.Ver = true, sv.Value, int(sv.Version)
+			out.HasVal, out.Val, out.Ver = true, takeValue(sv.Value), int(sv.Version)
 		}
 		return err
 	case "put":
-		v, err := s.DB.Put(caller, name, val)
+		// the caller's buffer is its own: it is reused (overwritten) as soon as Put has returned
+		buf := append([]byte(nil), val...)
+		v, err := s.DB.Put(caller, name, buf)
+		scribble(buf)
 		out.Ver = int(v)
 		return err
 	case "activate":
